@@ -146,12 +146,12 @@ def register(reg, S):
                     lines=SeqS(STR), bpm_events=S["BPMEvents"]),
         result=S["InstrumentTrack"],
         ghost_results=dict(GH_SHAPES, g_note_data=SeqS(S["NoteData"]), g_sp_data=SeqS(S["StarPowerDataLine"]),
-                           g_track_data=SeqS(S["TrackData"]), g_lo=SeqS(INT), g_hi=SeqS(INT), g_c=SeqS(INT)),
+                           g_track_data=SeqS(S["TrackData"]), g_lo=SeqS(INT), g_hi=SeqS(INT), g_c=SeqS(INT), g_run=SeqS(INT)),
         requires=be_pre + [("res-range", "1 <= bpm_events.resolution <= 2**50"), ("tokens-bounded", itok)] + canonical,
         may_raise=["ValueError"],
         ensures=ens,
         ghosts=[Ghost("(note_data, star_power_data, track_data) = cls._parse_data_from_chart_lines(lines)",
                       "g_note_data = note_data\ng_sp_data = star_power_data\ng_track_data = track_data\n" + GH_CODE),
                 Ghost("note_events = cls._build_note_events_from_data(note_data, star_power_events, bpm_events)",
-                      "g_lo = callee_ghost('g_lo')\ng_hi = callee_ghost('g_hi')\ng_c = callee_ghost('g_c')")],
+                      "g_lo = callee_ghost('g_lo')\ng_hi = callee_ghost('g_hi')\ng_c = callee_ghost('g_c')\ng_run = callee_ghost('g_run')")],
         props=["C02", "C03", "C04", "C05", "C07", "C11", "C13", "C14"]))
